@@ -26,6 +26,14 @@ void *jwt_base64uri_decode(const char *src, int *ret_len)
 	__CPROVER_assert(ret_len == NULL || __CPROVER_w_ok(ret_len, sizeof(*ret_len)), "jwt_base64uri_decode: ret_len NULL or writable");
 	if (src == NULL || ret_len == NULL)
 		return NULL;
+#ifdef VERIF_WELLFORMED
+	/* COMPLETENESS units: the text is well-formed base64url of 1..g_wf_maxlen octets; the only
+	 * failure left is the allocation of the result, which is recorded */
+	extern int g_lib_fail, g_wf_maxlen;
+	if (nondet_bool()) { g_lib_fail = 1; return NULL; }
+	int n = nondet_int();
+	__CPROVER_assume(n >= 1 && n <= g_wf_maxlen && n <= B64_DEC_MAX);
+#else
 	if (nondet_bool()) {
 		if (nondet_bool())
 			*ret_len = nondet_int();
@@ -33,6 +41,7 @@ void *jwt_base64uri_decode(const char *src, int *ret_len)
 	}
 	int n = nondet_int();
 	__CPROVER_assume(n >= 1 && n <= B64_DEC_MAX);
+#endif
 	void *p = malloc((size_t)n + 1);
 	__CPROVER_assume(p != NULL);
 	*ret_len = n;
